@@ -134,7 +134,8 @@ def outputs_variant(v, ec, fam):
                                "ValueError: bad value %d" % fam]}]
     if v == 4:
         return [{"output_type": "display_data", "metadata": {"isolated": True, "image/png": {"width": 10}},
-                 "data": {"application/json": {"a": [1, 2, {"b": None}], "c": 1.5, "d": [[1, 2], [3]]},
+                 "data": {"application/json": {"a": [1, 2, {"b": None}], "c": 1.5, "d": [[1, 2], [3]],
+                                               "layers": [[0, 1], {"name": "x", "visible": True}]},
                           "text/html": "<b>bold</b>\n<i>x</i>", "text/plain": "short"}},
                 {"output_type": "stream", "name": "stderr", "text": "warning: something happened\n"}]
     if v == 5:      # "re-run" of variant 2: pointer and image differ
@@ -165,7 +166,7 @@ NB_MD = {0: {},
          1: {"kernelspec": {"display_name": "Python 3", "language": "python", "name": "python3"},
              "language_info": {"name": "python", "version": "3.8.1"}},
          2: {"kernelspec": {"display_name": "Python 3", "language": "python", "name": "python3"},
-             "custom": {"list": [[1, 2], [3]], "flag": True, "objs": [{"a": 1}, {"a": 2}]}},
+             "custom": {"list": [[1, 2], [3]], "flag": True, "objs": [{"a": 1}, {"a": 2}], "mixed": [[1], {"k": 1}, 2]}},
          # the product of an earlier conflicted merge, and the same after the conflict was resolved by hand
          3: {"kernelspec": {"display_name": "Python 3", "language": "python", "name": "python3"}, "title": "draft",
              "nbdime-conflicts": {"local_diff": [{"op": "replace", "key": "title", "value": "mine"}],
